@@ -586,6 +586,7 @@ def random_scenario(seed, nw=2):
     for i in range(n):
         kinds.append(rnd.sample(["int", "bin", "tup"], rnd.choice([0, 1, 1, 2])))
     scripts = [None]
+    leaves = []         # scripts of grandchildren (appended after the children)
     actual = {i: set() for i in range(n)}    # kinds script i really receives (its inferred receive type)
     sent_to = {i: [] for i in range(n)}      # closed expressions sent to script i (for filter accept lists)
     # the entry process spawns script i with the pids of all earlier ones as captures: reg j+1 = pid of script j
@@ -618,6 +619,18 @@ def random_scenario(seed, nw=2):
                 nreg += 1
                 ops.append(let(nreg, fresh(rnd.choice(["int", "bin"]))))
                 got.append(nreg)
+        if rnd.random() < 0.3 and nreg < 7:
+            # a grandchild: spawned by this process (placed by the environment like any other), awaited at once
+            # or after the rest of the script; it returns a value, a binary, or fails
+            leaves.append([fail()] if rnd.random() < 0.15 else [ret(fresh(rnd.choice(["int", "bin", "tup"])))])
+            nreg += 1
+            sp = ("spawn_leaf", nreg, len(leaves) - 1)
+            nreg += 1
+            aw_op = select(nreg, aw(nreg - 1))
+            got.append(nreg)
+            pos = rnd.randint(0, len(ops))
+            ops.insert(pos, sp)
+            ops.insert(rnd.randint(pos + 1, len(ops)), aw_op)
         if rnd.random() < 0.12:
             ops.append(fail())                 # the process ends in a runtime error (C15: only its awaiters notice)
         else:
@@ -662,16 +675,21 @@ def random_scenario(seed, nw=2):
                                  [{"int": "int", "bin": "bin", "tup": "tup"}[t_] for t_ in s_[1]]]
                         if cands and rnd.random() < 0.4:
                             srcs.append(recv(s_[1], acc=rnd.sample(cands, rnd.randint(1, len(cands)))))
+                        elif tuple(s_[1]) == ("tup",) and rnd.random() < 0.5:
+                            srcs.append(recv(("tup",), body="builtin"))     # a builtin as receive source
                         else:
                             srcs.append(recv(s_[1]))
                     else:
                         srcs.append(s_)
                 out.append(select(op[1], *srcs))
+            elif isinstance(op, tuple) and op[0] == "spawn_leaf":
+                out.append(spawn(op[1], n + 2 + op[2]))
             else:
                 out.append(op)
         scripts.append(out)
+    scripts += leaves
     maxtick = 3 if any(s_["k"] == "timeout" for ops in scripts for op in ops if op["op"] == "select" for s_ in op["srcs"]) else 0
-    sc = scenario("rand_%d_w%d" % (seed, nw), scripts, nw=nw, maxtick=maxtick, maxpid=n + 1)
+    sc = scenario("rand_%d_w%d" % (seed, nw), scripts, nw=nw, maxtick=maxtick, maxpid=n + 1 + len(leaves))
     return meta(sc, False, False, ["C04", "C05", "C06", "C15"], large=True, random=True)
 
 
